@@ -119,7 +119,16 @@ def analyse_site(chk, prog, ref, min_divs):
         chk.error("GUARD-DIV: %s has %d sample-norm divisions, %d confirmed by hand" % (ref, n, min_divs))
     # carried-state writes happen after all guards of norms this function divides by
     cls = f.cls.name if f.cls else None
+    ctor_attrs = set()
+    if f.cls is not None:
+        for g_ in f.cls.methods.values():
+            if g_.name == "__init__" or g_.name.startswith("_set"):
+                ctor_attrs |= {x.attr for x in ast.walk(g_.node) if isinstance(x, ast.Attribute) and isinstance(x.ctx, ast.Store) and isinstance(x.value, ast.Name) and x.value.id == "self"}
     for attr, stmt, facts in state_writes:
+        if cls in CARRIED and attr not in CARRIED[cls] and attr not in ctor_attrs:
+            # an attribute the constructor never sets is not configuration: a scratch slot of the per-sample code (its staleness is STALE-DERIVED's business)
+            chk.record("CONFIG-FROZEN", "%s::self.%s" % (ref, attr), "assigned attribute is not one the constructor configures (scratch slot)")
+            continue
         if cls in CARRIED and attr not in CARRIED[cls]:
             chk.record("CONFIG-FROZEN", "%s::self.%s" % (ref, attr), "per-sample code does not assign configuration", verdict="VIOLATION")
             chk.finding("CONFIG-FROZEN", f.module.rel, f.qname, "self.%s assigned: %s" % (attr, stmt_text(stmt)),
